@@ -12,6 +12,7 @@ package c01
 import (
 	"fmt"
 	"math/big"
+	"strings"
 	"testing"
 
 	"go.sia.tech/core/consensus"
@@ -32,6 +33,13 @@ func draw(t *rapid.T) sim.ChainCase {
 	g := sim.GenChain(t, sim.GenOpts{
 		Net:       sim.NetOpts{MaxForkHeight: rapid.SampledFrom([]int{6, 12, 25, 40}).Draw(t, "forkSpan"), V2Only: rapid.IntRange(0, 5).Draw(t, "v2only") == 0},
 		MinBlocks: 8, MaxBlocks: max, Reorgs: true, Profile: sim.Profile{Contracts: rapid.IntRange(0, 2).Draw(t, "contractWeight")},
+		BeforeApply: func(g *sim.Gen, honest types.Block, bs consensus.V1BlockSupplement) {
+			// siblings whose outputs are padded with values that cancel in wrapping arithmetic: whatever validation
+			// accepts of them must conserve value (accepted => sound)
+			if len(honest.Transactions)+len(honest.V2Transactions()) > 0 && rapid.IntRange(0, 3).Draw(g.T, "wrapProbes") == 0 {
+				g.NewAdv(honest).InflationProbes()
+			}
+		},
 	})
 	c, err := g.Case.Normalize()
 	if err != nil {
@@ -67,11 +75,11 @@ func check(c sim.ChainCase) error {
 			return stats.Failf("C01/conservation", "height %d: outputs+contracts %s + unclaimed pool %s + forfeited %s = %s, but genesis+subsidies = %s (difference %s)",
 				h, locked, unclaimed, tt.forfeited, lhs, tt.supply, new(big.Int).Sub(lhs, tt.supply))
 		}
-		var sf uint64
+		sf := new(big.Int) // no wrap-around in the oracle's own sum
 		for _, e := range ch.Store.SF {
-			sf += e.SiafundOutput.Value
+			sf.Add(sf, new(big.Int).SetUint64(e.SiafundOutput.Value))
 		}
-		if sf != 10000 {
+		if sf.Cmp(big.NewInt(10000)) != 0 {
 			return stats.Failf("C01/siafund-count", "height %d: %d siafunds in unspent outputs, want 10000", h, sf)
 		}
 		if got := ref.Big(ch.Tip().SiafundTaxRevenue); got.Cmp(tt.tax) != 0 {
@@ -80,7 +88,33 @@ func check(c sim.ChainCase) error {
 		return nil
 	}
 
+	wrapProbes := 0
 	hooks := sim.Hooks{
+		Probe: func(ch *sim.Chain, st *sim.Step) error {
+			if st.Want != "sound" {
+				return fmt.Errorf("harness: unknown want %q", st.Want)
+			}
+			accepted, serr := sim.SoundApply(ch, *st.Block, *st.Supp, false)
+			if serr != nil {
+				return stats.Failf("C01/"+st.Label, "%s at height %d: %v", st.Label, ch.Height()+1, serr)
+			}
+			wrapProbes++
+			verdict := "rejected"
+			if accepted {
+				verdict = "accepted-and-sound"
+			} else if verr := consensus.ValidateBlock(ch.Tip(), *st.Block, *st.Supp); verr != nil {
+				// the reason is recorded so that the evidence shows which guard refused the padded outputs
+				msg := verr.Error()
+				for _, k := range []string{"overflow", "exceed", "do not equal", "not equal", "invalid"} {
+					if strings.Contains(msg, k) {
+						verdict = "rejected:" + k
+						break
+					}
+				}
+			}
+			rec.Label("probe:" + st.Label + ":" + verdict)
+			return nil
+		},
 		Genesis: func(ch *sim.Chain, au consensus.ApplyUpdate) error {
 			supply := new(big.Int)
 			for _, d := range au.SiacoinElementDiffs() {
@@ -168,6 +202,7 @@ func check(c sim.ChainCase) error {
 	tip := ch.Tip().Index.ID
 	rec.Case(stats.FP(tip[:], len(c.Steps)), nontrivial, ls...)
 	rec.Extra("blocks_applied", uint64(len(c.Steps)))
+	rec.Extra("wrap_probes", uint64(wrapProbes))
 	if rec.WantSample() {
 		rec.Sample(nontrivial, map[string]any{"height": ch.Height(), "steps": len(c.Steps), "labels": ls, "forks": forkHeights(c.Network)})
 	}
